@@ -401,6 +401,17 @@ class Explorer:
                 pass
         return v
 
+    def _closure_of(self, callee):
+        """the MIR function of the closure named in a callee's turbofish (`{closure@src/x.rs:L:C: L:C}`), or None"""
+        m = re.search(r"\{closure@[^}]*\}", callee)
+        if not m:
+            return None
+        cache = self.__dict__.setdefault("_closure_cache", {})
+        if m.group(0) not in cache:
+            c = [f for f in self.funcs.values() if f.args and m.group(0) in f.args[0][1] and "{closure" in f.name]
+            cache[m.group(0)] = c[0] if len(c) == 1 else None
+        return cache[m.group(0)]
+
     def _enum_operand(self, st, ref):
         v = st.objs.get(ref.obj, {}).get(ref.path) if ref.obj in st.objs or ref.obj not in PROMOTED else PROMOTED[ref.obj].get(ref.path)
         if isinstance(v, BV):
@@ -491,6 +502,10 @@ class Explorer:
         if m:
             w = INT_TYPES[m.group(2)]
             return BV(z3.BitVecVal(int(m.group(1).replace("_", "")), w), w, m.group(2)[0] == "i")
+        mnum = re.fullmatch(r"(?:core|std)::num::<impl (u(?:8|16|32|64|128|size))>::(MAX|MIN)", t) or re.fullmatch(r"(u(?:8|16|32|64|128|size))::(MAX|MIN)", t)
+        if mnum:
+            w = INT_TYPES[mnum.group(1)]
+            return BV(z3.BitVecVal((1 << w) - 1 if mnum.group(2) == "MAX" else 0, w), w)
         name = t.split("::")[-1]
         if name in self.consts:
             v, ty = self.consts[name]
@@ -645,7 +660,13 @@ class Explorer:
             return fresh_of_type(ty, "cast", True)
         m = re.fullmatch(r"const (.*) as (\w+) \((\w+)\)", t)
         if m:
-            return self.rvalue(st, frame, "const " + m.group(1))
+            v = self.rvalue(st, frame, "const " + m.group(1))
+            ty = m.group(2)
+            if m.group(3) == "IntToInt" and ty in INT_TYPES and isinstance(v, BV) and v.width != INT_TYPES[ty]:
+                w = INT_TYPES[ty]
+                e = (z3.SignExt(w - v.width, v.e) if v.signed else z3.ZeroExt(w - v.width, v.e)) if w > v.width else z3.Extract(w - 1, 0, v.e)
+                v = BV(e, w, ty[0] == "i", v.taint)
+            return v
         m = re.fullmatch(r"(copy|move) (.*) as (.+) \((Transmute|PtrToPtr|PointerCoercion.*|Unsize)\)", t, re.S)
         if m:
             return self.read_place(st, frame, m.group(2))
@@ -923,12 +944,41 @@ class Explorer:
                 short = cname.split("::")[-1]
                 st.events.append(("call", cname, args, (f.name.split("::")[-1], block)))
                 if any(cname.endswith(sc) for sc in self.stop_calls):
+                    st.final_locals = dict(fr.locals)
                     self._finish(st, "stop:" + cname)
                     return
                 # models
                 cm = next((fn_ for suf, fn_ in getattr(self, "call_models", {}).items() if cname.endswith(suf)), None)
                 if cm is not None:
                     rv = cm(st, args)   # a spec-supplied contract for an otherwise opaque callee
+                elif re.search(r"(str::<impl str>|slice::<impl \[\w+\]>)::len$", cname) and len(args) == 1 and isinstance(args[0], Ref):
+                    # str::len / <[T]>::len: the same pure length as PtrMetadata of that reference
+                    key = ("len", args[0].obj, args[0].path)
+                    if key not in st.acc:
+                        st.acc[key] = fresh_of_type("usize", "len", False)
+                    rv = st.acc[key]
+                elif re.search(r"Option::<.*>::map_or$", cname) and len(args) == 3 and isinstance(args[0], Adt) and args[0].discr is not None \
+                        and self._closure_of(callee) is not None and len(frames) < 12:
+                    # Option::map_or(default, f) on a modelled Option: None -> default (explored as its own path), Some(x) -> f(x) from f's MIR
+                    d = args[0].discr
+                    nst, nfr = self._clone(st, frames)
+                    nst.cond.append(d == 0)
+                    if self.feasible(nst.cond):
+                        nst.events.append(("ret", cname, args[1], None))
+                        if dest:
+                            self.write_place(nst, nfr[-1], dest, args[1])
+                        self._run(nst, nfr, ret_block)
+                    st.cond.append(d == 1)
+                    if not self.feasible(st.cond):
+                        return
+                    target = self._closure_of(callee)
+                    loc = {}
+                    vals = [args[2]] + list(args[0].items[:1])
+                    for (l, ty), v in zip(target.args, vals):
+                        loc[l] = v
+                    frames.append(Frame(target, loc, dest, ret_block))
+                    block = "bb0"
+                    continue
                 elif cname.endswith("as Try>::branch") and len(args) == 1 and isinstance(args[0], Adt) and args[0].discr is not None:
                     # `?` on a modelled Result/Option: Ok/Some (0/1) -> Continue(payload), Err/None -> Break
                     d = args[0].discr
